@@ -72,6 +72,8 @@ def _configs(tier, salts):
                     depth = 0 if mode in SLOW else 1
                     if tier == "quick" and salt != 0:
                         depth = 1 if maxfun == 13 else 0
+                    if tier == "thorough" and salt >= 3:     # all single deviations at every budget on three salts, at two budgets on the rest
+                        depth = depth if maxfun in (13, 30) else 0
                     letters = LETTERS
                     if tier == "thorough" and salt == 0 and maxfun == 13 and prob == "rosen" and mode in (
                             "plain", "soft", "hard_new", "boxball", "ball_half_box", "bounds") or (
